@@ -2,6 +2,9 @@ use std::future;
 use std::net::Ipv4Addr;
 use std::net::SocketAddr;
 use std::net::SocketAddrV4;
+use std::sync::atomic::AtomicBool;
+use std::sync::atomic::Ordering;
+use std::time::Duration;
 
 use anyhow::anyhow;
 use anyhow::bail;
@@ -28,6 +31,9 @@ use tokio_util::codec::Decoder;
 use tokio_util::codec::Encoder;
 use tokio_util::udp::UdpFramed;
 use tokio_websockets::ServerBuilder;
+
+/// how long a flow of which one direction has ended cleanly waits for the other direction to end too
+const CLOSE_GRACE: Duration = Duration::from_secs(10);
 
 pub(super) mod message {
     use std::fmt::Debug;
@@ -178,7 +184,7 @@ where
     St: Stream<Item = Result<InboundIn, anyhow::Error>> + Unpin,
 {
     let (outbound_sink, outbound_stream) = BytesCodec.framed(outbound).split();
-    relay_bidirectional(inbound_sink, inbound_stream, outbound_sink, outbound_stream, first).await
+    relay_bidirectional(inbound_sink, inbound_stream, outbound_sink, outbound_stream, first, CLOSE_GRACE).await
 }
 
 async fn relay_udp_bidirectional<Si, St>(inbound_sink: Si, inbound_stream: St, outbound: UdpSocket, first: InboundIn) -> relay::Result
@@ -187,7 +193,8 @@ where
     St: Stream<Item = Result<InboundIn, anyhow::Error>> + Unpin,
 {
     let (outbound_sink, outbound_stream) = UdpFramed::new(outbound, BytesCodec).split();
-    relay_bidirectional(inbound_sink, inbound_stream, outbound_sink, outbound_stream, first).await
+    // datagrams have no end-of-stream of their own: the relay ends with the client's stream
+    relay_bidirectional(inbound_sink, inbound_stream, outbound_sink, outbound_stream, first, Duration::ZERO).await
 }
 
 async fn relay_bidirectional<ISink, IStream, O, OSink, OStream>(
@@ -196,6 +203,7 @@ async fn relay_bidirectional<ISink, IStream, O, OSink, OStream>(
     mut outbound_sink: OSink,
     outbound_stream: OStream,
     first: InboundIn,
+    close_grace: Duration,
 ) -> relay::Result
 where
     ISink: Sink<OutboundIn, Error = anyhow::Error> + Unpin,
@@ -214,16 +222,32 @@ where
     let outbound_stream = outbound_stream.filter_map(|r| future::ready(r.ok())).map(O::into).map(Ok);
     let inbound_stream = inbound_stream.filter_map(|r| future::ready(r.ok())).map(InboundIn::try_into);
 
+    // A direction that ends cleanly has flushed and closed its sink. The other direction goes on until it ends too (then
+    // the flow ends at once), for at most `close_grace`; an error ends the flow at once. Dropping the sockets as soon as
+    // one direction is done would close them with unread input, which resets the connection and destroys what is still
+    // in flight in either direction (the tail of the answer, the rest of an upload).
+    let one_done = AtomicBool::new(false);
+
     let p_s_c = async {
         match outbound_stream.forward(inbound_sink).await {
-            Ok(_) => Err::<(), _>(relay::Result::Close(End::Peer, End::Server)),
+            Ok(_) => {
+                if !one_done.swap(true, Ordering::Relaxed) {
+                    tokio::time::sleep(close_grace).await;
+                }
+                Err::<(), _>(relay::Result::Close(End::Peer, End::Server))
+            }
             Err(e) => Err(relay::Result::Err(End::Peer, End::Server, e)),
         }
     };
 
     let c_s_p = async {
         match inbound_stream.forward(outbound_sink).await {
-            Ok(_) => Err::<(), _>(relay::Result::Close(End::Client, End::Server)),
+            Ok(_) => {
+                if !one_done.swap(true, Ordering::Relaxed) {
+                    tokio::time::sleep(close_grace).await;
+                }
+                Err::<(), _>(relay::Result::Close(End::Client, End::Server))
+            }
             Err(e) => Err(relay::Result::Err(End::Client, End::Server, e)),
         }
     };
